@@ -57,6 +57,12 @@ def gen(rng, size='small'):
     ext.append(('init',))
     n_ops = rng.randint(3, 12) if size == 'small' else rng.randint(10, 40)
     est = 0
+    # one scenario in seven: the scheduler is created between two System.simulate() calls (a first run has already taken place); it
+    # must start at once, its timetable counted from the moment of its creation
+    late = rng.random() < 0.15
+    if late:
+        est = rng.choice([4, 8, 12, 20])
+        ext = [('run', est), ('init',)]
     for _ in range(n_ops):
         r = rng.random()
         if r < 0.12:
@@ -73,7 +79,10 @@ def gen(rng, size='small'):
             d = rng.choice([4, 8, 16, 32, 64])
             ext.append(('run', d))
             est += d
-    return dict(seed=rng.randint(0, 1000), mod=rng.choice([1, 3, 1 << 20]), cyclic=cyclic, schedule=schedule, ext=ext)
+    sc = dict(seed=rng.randint(0, 1000), mod=rng.choice([1, 3, 1 << 20]), cyclic=cyclic, schedule=schedule, ext=ext)
+    if late:
+        sc['late'] = True
+    return sc
 
 
 def run_impl(sc):
@@ -105,11 +114,15 @@ def run_impl(sc):
         def ST(x):
             return 3 if x is None else x
         schedule = [(d / TICK, None if s == 3 else s) for d, s in sc['schedule']]
-        if sc['cyclic'] is None:
-            sched = Sched(schedule, 'sched')
-        else:
-            sched = Sched(schedule, 'sched', sc['cyclic'])
-        schedule.append((0.125, -7))       # the caller goes on using its list: the scheduler must follow the timetable it was built with
+        def create():
+            if sc['cyclic'] is None:
+                r = Sched(schedule, 'sched')
+            else:
+                r = Sched(schedule, 'sched', sc['cyclic'])
+            schedule.append((0.125, -7))       # the caller goes on using its list: the scheduler must follow the timetable it was built with
+            return r
+        late = bool(sc.get('late'))
+        sched = None if late else create()
         nobj = 1 + max([x[1] for x in sc['ext'] if x[0] in ('reg', 'unreg')] + [x[3] for x in sc['ext'] if x[0] in ('dreg', 'dunreg')] + [0])
         objs = [Obj(i) for i in range(nobj)]
 
@@ -179,18 +192,24 @@ def run_impl(sc):
                     elif k == 'dunreg':
                         env.schedule_event(x[1] / TICK, -5, mk(3, x[3]), x[2] / PRIO)
                     elif k == 'init':
-                        sched.initialize(env)
+                        if late:
+                            sched = create()          # the System is initialised: constructing the asset starts it
+                        else:
+                            sched.initialize(env)
                     elif k == 'step':
                         env.step()
                     elif k == 'run':
-                        env.run(x[1] / TICK)
+                        if late:
+                            system.simulate(x[1] / TICK, print_summary=False)
+                        else:
+                            env.run(x[1] / TICK)
             except ValueError:
                 st = 1
             except IndexError:
                 st = 2
-            regs = [[o.i, -1 if a is None else ovid[id(a)]] for o, a in sched._registered_objects.items()]
+            regs = [] if sched is None else [[o.i, -1 if a is None else ovid[id(a)]] for o, a in sched._registered_objects.items()]
             started = len(datalog) > 0          # (a state change has been recorded)
-            out = [-777, st, sched._schedule_index, ST(sched.current_state) if started else -1, len(regs)]
+            out = [-777, st, 0 if sched is None else sched._schedule_index, ST(sched.current_state) if started else -1, len(regs)]
             for r in regs:
                 out += r
             out.append(len(calls))
@@ -201,7 +220,7 @@ def run_impl(sc):
                 out += r
             q = []
             for ev in env._events:
-                aid = 1 if ev.asset_id == sched.id else ev.asset_id
+                aid = 1 if sched is not None and ev.asset_id == sched.id else ev.asset_id
                 q.append([ev._verif_eid, to_ticks(ev.time), to_ticks(ev.event_type, PRIO), int(round(ev.random_weight * common.WDEN)), aid] + act_code(ev))
             out += [to_ticks(env.now), 1 if env._terminated else 0, len(q)]
             for e in q:
@@ -217,7 +236,7 @@ def run_impl(sc):
                 drecs.append(rec)
                 out += rec
             flat += out
-            obs.append(dict(op=x, st=st, now=to_ticks(env.now), index=sched._schedule_index, state=(ST(sched.current_state) if started else None), regs=regs,
+            obs.append(dict(op=x, st=st, now=to_ticks(env.now), index=0 if sched is None else sched._schedule_index, state=(ST(sched.current_state) if started else None), regs=regs,
                             calls=[list(c) for c in calls], results=[list(r) for r in results], events=q, data=drecs))
     return flat, obs
 
